@@ -104,6 +104,9 @@ func (c *otApplyContext) applyBackward(accel *otLayoutLookupAccelerator) bool {
 		buffer.idx--
 
 	}
+	// the loop leaves the cursor at -1 (upstream: an unsigned value that compares as
+	// past the end); do not leave an invalid index behind for later in-place cluster merges
+	buffer.idx = len(buffer.Info)
 	return ret
 }
 
